@@ -25,6 +25,8 @@ double PowellMultiDimensions::PMDStopCondition::getCurrentTolerance() const
   const PowellMultiDimensions* pmd = dynamic_cast<const PowellMultiDimensions*>(optimizer_);
   double fp   = pmd->fp_;
   double fret = pmd->fret_;
+  if (fp == fret)
+    return 0.; // also when both are 0 (0/0 otherwise)
   return 2.0 * NumTools::abs(fp - fret) / (NumTools::abs(fp) + NumTools::abs(fret));
 }
 
